@@ -5,6 +5,7 @@ import (
 	"errors"
 	"fmt"
 	"go/format"
+	"html"
 	"io"
 	"strings"
 	"unicode"
@@ -805,7 +806,17 @@ func (ca ConstantAttribute) String() string {
 	if ca.SingleQuote {
 		quote = `'`
 	}
-	return ca.Name + `=` + quote + ca.Value + quote
+	value := ca.Value
+	// The value is stored unescaped, so restore the escaping that is required for it to parse to the same value.
+	if html.UnescapeString(value) != value {
+		value = strings.ReplaceAll(value, "&", "&amp;")
+	}
+	if ca.SingleQuote {
+		value = strings.ReplaceAll(value, `'`, "&#39;")
+	} else {
+		value = strings.ReplaceAll(value, `"`, "&#34;")
+	}
+	return ca.Name + `=` + quote + value + quote
 }
 
 func (ca ConstantAttribute) Write(w io.Writer, indent int) error {
